@@ -328,8 +328,9 @@ func c02Build(seed uint64, idx int, tier string) *c02Case {
 
 func init() {
 	fw.Register(&fw.Check{
-		ID:        "C02",
-		Technique: "runtime monitor: local consumption model (the statement, literally) deciding which tokens a multi-value occurrence takes, compared with what the real Parse stored (values in order, conversions, ranges, map split) and left over (remaining, flag, command)",
+		ID:             "C02",
+		ExhaustivePart: "the grid kind(4) x (min,max)(12) x attached(2) x preceding elements(0-3) x probe class(15) x position(2) is enumerated completely in both tiers (payload texts are sampled)",
+		Technique:      "runtime monitor: local consumption model (the statement, literally) deciding which tokens a multi-value occurrence takes, compared with what the real Parse stored (values in order, conversions, ranges, map split) and left over (remaining, flag, command)",
 		Rule: "quick enumerates the grid kind(4) x (min,max)(12) x attached(2) x well-formed elements before the probe(0-3) x probe token class(15: element, number, float, key=value, word, known flag, unknown option, `-`, `--`, command name, int range, further occurrence attached/detached, hostile text, Bundling-mode bundle holding the option with flags and another argument-taking letter) x position(2) completely; " +
 			"thorough adds random runs of up to 3 occurrences with up to 9 following tokens. distinct = distinct argv shapes; non-trivial = the occurrence takes at least one detached token or stops before max. Definitions with min<1 or max<min must panic (sub-check).",
 		Assumptions: []string{"int ranges a..b with a>=b in accepted positions are generated but only the universal monitors apply (statement silent)"},
